@@ -117,54 +117,64 @@ for _le, _f, _codes, _tier in ((1, 5, (5, 9), 'quick'), (0, 9, (5, 9), 'quick'),
                       assumptions=[STR_ASSUME, 'the header image is valid per the reference decoder and the cache is consistent with it (entries correct or UNKNOWN)']))
 
 
-# ---- the REAL realignment core on a concrete skeleton, every allocation may fail (B) -----------------------------
-LIST = 'dbus/dbus-list.c'
-REAL_REPLACE = {'memmove': 'verif_mem_memmove', 'memcpy': 'verif_mem_memcpy', 'memset': 'verif_mem_memset', 'dbus_malloc': 'verif_mem_malloc',
-                'dbus_malloc0': 'verif_mem_malloc0', 'dbus_realloc': 'verif_mem_realloc', 'dbus_free': 'verif_mem_free', 'fixup_alignment': 'verif_mem_fixup_alignment'}
-REAL_FUNCS = [dict(name='_dbus_type_reader_delete / reader_set_basic_variable_length / replacement_block_* / _dbus_type_writer_write_reader_partial / apply_and_free_fixups', file=REC, status='bounded'),
-              dict(name='_dbus_string_init/_lengthen/_replace_len/_insert_*/_delete/_free (real dbus-string.c)', file=STR, status='bounded'),
-              dict(name='_dbus_marshal_write_basic/_set_basic/_read_basic', file=BASIC, status='bounded'),
-              dict(name='memmove/memcpy/memset', file='libc', status='stub', note='exact byte loops'),
-              dict(name='dbus_malloc/dbus_realloc/dbus_free', file='dbus/dbus-memory.c', status='stub', note='each call may fail; a successful realloc grows in place (every block has room for header bytes + 24)'),
-              dict(name='fixup_alignment', file=STR, status='stub', note='align_offset stays 0 (8-aligned allocator)'),
-              dict(name='_dbus_list_append/_get_first_link/_free_link (array-length fixups)', file=LIST, status='stub', note='pool of 4 links, append may fail')]
-REAL_ASSUME = ['a successful dbus_realloc grows the block in place (every block has room for header bytes + 24); blocks are 8-aligned', 'DBusList for the fixups: pool model',
-               'the header image is valid per the reference decoder and the cache is consistent with it (entries correct or UNKNOWN)']
+# ---- the REAL realignment core on a concrete skeleton, every allocation may fail (B): NOT REGISTERED ----------------
+# Attempt of 2026-10-01 (time-boxed): C12.real_delete.* = real _dbus_header_delete_field -> _dbus_type_reader_delete ->
+# replacement_block_replace -> _dbus_type_writer_write_reader_partial on a 40-byte two-field skeleton, real dbus-string.c, exact
+# byte-loop memmove/memset, failing allocations (harness/c12_realdelete.c, harness/c12_realmem.h).  Measured: symbolic execution
+# does not finish (200 s probe: 21 000 loop events, the typed writer re-enters writer_write_reader_helper on type codes that are
+# no longer constants once an allocation may have failed: string lengths become ite(ok, new, old), block sizes symbolic, every
+# memset/memmove runs its full bound).  Same obstacle as the design session's probe (DESIGN 6 C12).  C12.real_replace.* was not
+# started.  The typestate units C12.block_replace.order / C12.reader_delete.result / C12.reader_set_varlen.result (c12r.py)
+# cover the two seeded changes.  Set REGISTER_REAL_CORE = True to get the unit definitions back for further probing.
+REGISTER_REAL_CORE = False
+if REGISTER_REAL_CORE:
+    LIST = 'dbus/dbus-list.c'
+    REAL_REPLACE = {'memmove': 'verif_mem_memmove', 'memcpy': 'verif_mem_memcpy', 'memset': 'verif_mem_memset', 'dbus_malloc': 'verif_mem_malloc',
+                    'dbus_malloc0': 'verif_mem_malloc0', 'dbus_realloc': 'verif_mem_realloc', 'dbus_free': 'verif_mem_free', 'fixup_alignment': 'verif_mem_fixup_alignment'}
+    REAL_FUNCS = [dict(name='_dbus_type_reader_delete / reader_set_basic_variable_length / replacement_block_* / _dbus_type_writer_write_reader_partial / apply_and_free_fixups', file=REC, status='bounded'),
+                  dict(name='_dbus_string_init/_lengthen/_replace_len/_insert_*/_delete/_free (real dbus-string.c)', file=STR, status='bounded'),
+                  dict(name='_dbus_marshal_write_basic/_set_basic/_read_basic', file=BASIC, status='bounded'),
+                  dict(name='memmove/memcpy/memset', file='libc', status='stub', note='exact byte loops'),
+                  dict(name='dbus_malloc/dbus_realloc/dbus_free', file='dbus/dbus-memory.c', status='stub', note='each call may fail; a successful realloc grows in place (every block has room for header bytes + 24)'),
+                  dict(name='fixup_alignment', file=STR, status='stub', note='align_offset stays 0 (8-aligned allocator)'),
+                  dict(name='_dbus_list_append/_get_first_link/_free_link (array-length fixups)', file=LIST, status='stub', note='pool of 4 links, append may fail')]
+    REAL_ASSUME = ['a successful dbus_realloc grows the block in place (every block has room for header bytes + 24); blocks are 8-aligned', 'DBusList for the fixups: pool model',
+                   'the header image is valid per the reference decoder and the cache is consistent with it (entries correct or UNKNOWN)']
 
 
-def skel2(le, first, second):
-    """two elements; each is (code, 'u') or (code, 's', text). Returns n, assignments, [(start, length incl. inner padding)]"""
-    a = ''; off = 16; spans = []
-    for code, t, *txt in (first, second):
-        a += ''.join('in_buf[%d]=0;' % i for i in range(off, (off + 7) & ~7))
-        off = (off + 7) & ~7
-        start = off
-        a += "in_buf[%d]=%d;in_buf[%d]=1;in_buf[%d]='%s';in_buf[%d]=0;" % (off, code, off + 1, off + 2, t, off + 3)
-        if t == 'u':
-            off += 8
-        else:
-            L = len(txt[0])
-            a += ''.join('in_buf[%d]=%d;' % (off + 4 + i, b) for i, b in enumerate(u32(le, L)))
-            a += ''.join("in_buf[%d]=%d;" % (off + 8 + i, ord(ch)) for i, ch in enumerate(txt[0])) + 'in_buf[%d]=0;' % (off + 8 + L)
-            off += 8 + L + 1
-        spans.append((start, off - start))
-    fal = off - 16
-    n = (off + 7) & ~7
-    a = "in_len=%d;in_buf[0]='%s';" % (n, 'l' if le else 'B') + ''.join('in_buf[%d]=%d;' % (12 + i, b) for i, b in enumerate(u32(le, fal))) + a
-    a += ''.join('in_buf[%d]=0;' % i for i in range(off, n))
-    return n, a, spans
+    def skel2(le, first, second):
+        """two elements; each is (code, 'u') or (code, 's', text). Returns n, assignments, [(start, length incl. inner padding)]"""
+        a = ''; off = 16; spans = []
+        for code, t, *txt in (first, second):
+            a += ''.join('in_buf[%d]=0;' % i for i in range(off, (off + 7) & ~7))
+            off = (off + 7) & ~7
+            start = off
+            a += "in_buf[%d]=%d;in_buf[%d]=1;in_buf[%d]='%s';in_buf[%d]=0;" % (off, code, off + 1, off + 2, t, off + 3)
+            if t == 'u':
+                off += 8
+            else:
+                L = len(txt[0])
+                a += ''.join('in_buf[%d]=%d;' % (off + 4 + i, b) for i, b in enumerate(u32(le, L)))
+                a += ''.join("in_buf[%d]=%d;" % (off + 8 + i, ord(ch)) for i, ch in enumerate(txt[0])) + 'in_buf[%d]=0;' % (off + 8 + L)
+                off += 8 + L + 1
+            spans.append((start, off - start))
+        fal = off - 16
+        n = (off + 7) & ~7
+        a = "in_len=%d;in_buf[0]='%s';" % (n, 'l' if le else 'B') + ''.join('in_buf[%d]=%d;' % (12 + i, b) for i, b in enumerate(u32(le, fal))) + a
+        a += ''.join('in_buf[%d]=0;' % i for i in range(off, n))
+        return n, a, spans
 
 
-from .c01h import u32   # noqa: E402
-for _le, _first, _second, _del, _tier in ((1, (6, 's', 'a.b'), (5, 'u'), 6, 'quick'), (0, (6, 's', 'a.b'), (5, 'u'), 5, 'quick'),
-                                          (0, (5, 'u'), (6, 's', 'a.b'), 5, 'thorough'), (1, (7, 's', ':1.2'), (6, 's', 'a.b'), 7, 'thorough')):
-    _n, _a, _spans = skel2(_le, _first, _second)
-    _keep = 1 if _del == _first[0] else 0
-    _other = (_first, _second)[_keep][0]
-    UNITS.append(dict(name='C12.real_delete.f%d_in_%d_%d.%s%d' % (_del, _first[0], _second[0], 'le' if _le else 'be', _n), props=['C12', 'C14'], kind='B', route='stub',
-                      tus=[dict(file=HDR, include_as='VERIF_TU'), dict(file=STR), dict(file=BASIC), dict(file=REC), dict(file=SIG)],
-                      harness='harness/c12_realdelete.c', extra_sources=[ASSERT],
-                      defines=['VERIF_N=%d' % _n, 'VERIF_FIELD=%d' % _del, 'VERIF_OTHER=%d' % _other, 'VERIF_KEEP_AT=%d' % _spans[_keep][0], 'VERIF_KEEP_LEN=%d' % _spans[_keep][1], 'VERIF_HDR_ASSUME=%s' % _a],
-                      replace_calls=REAL_REPLACE, unwind=_n + 24 + 3, timeout=3000, tier=_tier, expect_s=300,
-                      bounds={'header_bytes': _n, 'skeleton': ('little' if _le else 'big') + ' endian, fields %s then %s; field %d deleted' % (_first, _second, _del), 'allocations': 'each may fail; realloc in place'},
-                      functions=[dict(name='_dbus_header_delete_field', file=HDR, status='bounded')] + REAL_FUNCS, assumptions=REAL_ASSUME))
+    from .c01h import u32   # noqa: E402
+    for _le, _first, _second, _del, _tier in ((1, (6, 's', 'a.b'), (5, 'u'), 6, 'quick'), (0, (6, 's', 'a.b'), (5, 'u'), 5, 'quick'),
+                                              (0, (5, 'u'), (6, 's', 'a.b'), 5, 'thorough'), (1, (7, 's', ':1.2'), (6, 's', 'a.b'), 7, 'thorough')):
+        _n, _a, _spans = skel2(_le, _first, _second)
+        _keep = 1 if _del == _first[0] else 0
+        _other = (_first, _second)[_keep][0]
+        UNITS.append(dict(name='C12.real_delete.f%d_in_%d_%d.%s%d' % (_del, _first[0], _second[0], 'le' if _le else 'be', _n), props=['C12', 'C14'], kind='B', route='stub',
+                          tus=[dict(file=HDR, include_as='VERIF_TU'), dict(file=STR), dict(file=BASIC), dict(file=REC), dict(file=SIG)],
+                          harness='harness/c12_realdelete.c', extra_sources=[ASSERT],
+                          defines=['VERIF_N=%d' % _n, 'VERIF_FIELD=%d' % _del, 'VERIF_OTHER=%d' % _other, 'VERIF_KEEP_AT=%d' % _spans[_keep][0], 'VERIF_KEEP_LEN=%d' % _spans[_keep][1], 'VERIF_HDR_ASSUME=%s' % _a],
+                          replace_calls=REAL_REPLACE, unwind=_n + 24 + 3, timeout=3000, tier=_tier, expect_s=300,
+                          bounds={'header_bytes': _n, 'skeleton': ('little' if _le else 'big') + ' endian, fields %s then %s; field %d deleted' % (_first, _second, _del), 'allocations': 'each may fail; realloc in place'},
+                          functions=[dict(name='_dbus_header_delete_field', file=HDR, status='bounded')] + REAL_FUNCS, assumptions=REAL_ASSUME))
